@@ -18,7 +18,8 @@ import numpy as np
 from mc import alphabet as A, refmodel as R
 
 BCLASS = {"Q1": "normalised", "Q3": "normalised", "Q3g": "normalised", "Q2": "normalised", "Q6": "normalised",
-          "Q1u": "unnormalised", "Q1h": "hermitian-identity-not-first", "Q3h": "hermitian-identity-not-first"}
+          "Q1u": "unnormalised", "Q1h": "hermitian-identity-not-first", "Q3h": "hermitian-identity-not-first",
+          "Q1x": "hermitian-identity-not-first", "Q3x": "hermitian-identity-not-first"}
 NORMALISED = ("Q1", "Q3", "Q3g", "Q2", "Q6")
 
 
